@@ -6,10 +6,10 @@
 
 extern "C" {
 int ab_bitcnt(uint32_t), ab_clz(uint32_t), ab_ctz(uint32_t), ab_ilog2(uint32_t);
-int ab_const_pop(uint64_t), ab_const_lssb(uint64_t);
+long long ab_const_pop(uint64_t), ab_const_lssb(uint64_t);
 // generated translation unit: the same macros in constant-expression context
 extern const uint64_t ce_in[];
-extern const int ce_pop[], ce_lssb[];
+extern const long long ce_pop[], ce_lssb[];
 extern const unsigned ce_n;
 }
 
@@ -45,14 +45,14 @@ static const char *check32(uint32_t x, char *buf, size_t n)
 
 static const char *check64(uint64_t x, char *buf, size_t n)
 {
-	int a;
+	long long a;
 	if ((a = ab_const_pop(x)) != ref_pop64(x)) {
-		snprintf(buf, n, "const_pop(0x%016llx)=%d at run time, number of one bits is %d", (unsigned long long)x, a,
+		snprintf(buf, n, "const_pop(0x%016llx)=%lld at run time, number of one bits is %d", (unsigned long long)x, a,
 			 ref_pop64(x));
 		return buf;
 	}
 	if ((a = ab_const_lssb(x)) != ref_lssb64(x)) {
-		snprintf(buf, n, "const_lssb(0x%016llx)=%d at run time, lowest set bit is %d", (unsigned long long)x, a,
+		snprintf(buf, n, "const_lssb(0x%016llx)=%lld at run time, lowest set bit is %d", (unsigned long long)x, a,
 			 ref_lssb64(x));
 		return buf;
 	}
@@ -63,12 +63,12 @@ static const char *check_ce(unsigned i, char *buf, size_t n)
 {
 	uint64_t x = ce_in[i];
 	if (ce_pop[i] != ref_pop64(x) || ce_pop[i] != ab_const_pop(x)) {
-		snprintf(buf, n, "const_pop(0x%016llx) folded to %d as a constant expression; run time %d, definition %d",
+		snprintf(buf, n, "const_pop(0x%016llx) folded to %lld as a constant expression; run time %lld, definition %d",
 			 (unsigned long long)x, ce_pop[i], ab_const_pop(x), ref_pop64(x));
 		return buf;
 	}
 	if (ce_lssb[i] != ref_lssb64(x) || ce_lssb[i] != ab_const_lssb(x)) {
-		snprintf(buf, n, "const_lssb(0x%016llx) folded to %d as a constant expression; run time %d, definition %d",
+		snprintf(buf, n, "const_lssb(0x%016llx) folded to %lld as a constant expression; run time %lld, definition %d",
 			 (unsigned long long)x, ce_lssb[i], ab_const_lssb(x), ref_lssb64(x));
 		return buf;
 	}
@@ -133,7 +133,10 @@ void h_custom(long worker, long workers, long seed, std::map<std::string, std::s
 {
 	char buf[256];
 	uint64_t lo = (1ull << 32) * worker / workers, hi = (1ull << 32) * (worker + 1) / workers;
+	uint32_t dummy[3], *cur = engine_custom_case ? engine_custom_case(3, nullptr) : dummy; // h_run: kind 0, flip = 0 (raw), the value
+	cur[0] = cur[1] = 0;
 	for (uint64_t x = lo; x < hi; x++) {
+		cur[2] = (uint32_t)x; // a function that aborts on this argument leaves a replayable case behind
 		if (const char *m = check32((uint32_t)x, buf, sizeof buf)) {
 			o.failed = true;
 			o.failmsg = m;
